@@ -31,9 +31,14 @@ structure CondSeg (c : CObj) (neg : Bool) (g g' : GenState) (p : Pend) : Prop wh
   owners : g'.owners = g.owners
   stack : g'.stack = g.stack
   ownAll : p.OwnAll g.owners
-  code : ∃ seg0, g'.code = g.code ++ seg0 ∧ ∀ L, g'.code.length ≤ L → ∃ seg, seg.length = seg0.length ∧
-    (∀ pre rest : List Insn, pre.length = g.code.length → p.patch L (pre ++ seg0 ++ rest) = pre ++ seg ++ rest) ∧
-    ∀ σ : State, ∃ σ', JumpRun seg (L - g.code.length) σ σ' (xor (c.mtruth σ) neg) ∧ Keep g.owners σ σ'
+  /-- `segf none` is the appended code with its placeholders, `segf (some L)` the same code patched for target `L`;
+  patching (again) for `L` turns any of them into `segf (some L)` -/
+  code : ∃ segf : Option Nat → List Insn, g'.code = g.code ++ segf none ∧
+    (∀ m, (segf m).length = (segf none).length) ∧
+    (∀ (m : Option Nat) (L : Nat) (pre rest : List Insn), pre.length = g.code.length →
+      p.patch L (pre ++ segf m ++ rest) = pre ++ segf (some L) ++ rest) ∧
+    ∀ L, g'.code.length ≤ L → ∀ σ : State, ∃ σ',
+      JumpRun (segf (some L)) (L - g.code.length) σ σ' (xor (c.mtruth σ) neg) ∧ Keep g.owners σ σ'
 
 theorem set_last (c0 : List Insn) (a x : Insn) : (c0 ++ [a]).set c0.length x = c0 ++ [x] := by
   rw [List.set_append_right _ _ (Nat.le_refl _)]; simp
@@ -66,14 +71,14 @@ theorem compare_simple (op : CmpOp) (sg : Bool) (l r : Expr) (neg : Bool) (g g' 
   obtain ⟨c0, hc, horg, ho, hs, hst, hop, hrun⟩ :=
     cmpCore_correct (op.jop sg neg) l r g g' oi.1 oi.2 hok.left hok.right hok.noWidenInPlace hcore
   obtain ⟨j5, j0, j8, j9, _⟩ := jop_mod op sg neg
-  refine ⟨ho, hs, by simp [Pend.OwnAll, ho], c0 ++ [hole], by rw [hc, List.append_assoc], ?_⟩
-  intro L hL
-  have hlen : g'.code.length = g.code.length + c0.length + 1 := by rw [hc]; simp; omega
-  refine ⟨c0 ++ [{ oi.2 with off := (L : Int) - oi.1 - 1 }], by simp, ?_, ?_⟩
-  · intro pre rest hpre
+  refine ⟨ho, hs, by simp [Pend.OwnAll, ho],
+    fun m => c0 ++ [match m with | none => hole | some L => { oi.2 with off := (L : Int) - oi.1 - 1 }],
+    by rw [hc, List.append_assoc], fun m => by simp, ?_, ?_⟩
+  · intro m L pre rest hpre
     simp only [Pend.patch]
-    rw [horg, ← hpre, set_mid pre (c0 ++ [hole]) rest c0.length _ (by simp), set_last]
-  · intro σ
+    rw [horg, ← hpre, set_mid pre (c0 ++ [_]) rest c0.length _ (by simp), set_last]
+  · intro L hL σ
+    have hlen : g'.code.length = g.code.length + c0.length + 1 := by rw [hc]; simp; omega
     have ht : 1 ≤ L - oi.1 := by omega
     obtain ⟨σ', hj, hk⟩ := atom_segment (cmpBV op sg) (op.jop sg neg) neg l r oi.2 g.owners c0 (L - oi.1) j5 j0 j8 j9
       (cond_jop op sg neg) hop hok.frag hst hrun ht σ
